@@ -27,12 +27,17 @@ pub fn generate(g: &mut G, _index: u64) -> Scenario {
     let mailbox = if g.chance(1, 6) { None } else { Some(g.below(5) as usize) };
     let owning = g.chance(1, 3);
     let mut spec = ActorSpec { mailbox, entry: if owning { Entry::BuilderSpawnOwning } else { Entry::BuilderSpawn }, ..Default::default() };
-    for t in 0..g.below(3) {
+    let nt = g.below(3);
+    for t in 0..nt {
+        // the tick handlers together use at most half of the actor's time, so that it can always
+        // catch up ("every send returns once the actor catches up" presupposes that it can)
+        let period = g.range(4, 25);
+        let max_sleep = period / (2 * nt);
         spec.on_start.push(Work::Timer(TimerSpec {
             id: t as u32,
             kind: g.pick(&[TimerKind::IntervalWith, TimerKind::IntervalWith, TimerKind::Interval]),
-            period: g.range(2, 25),
-            handler_sleep: if g.chance(1, 3) { g.range(1, 8) } else { 0 },
+            period,
+            handler_sleep: if g.chance(1, 3) && max_sleep >= 1 { g.range(1, max_sleep) } else { 0 },
         }));
     }
     let kinds = [HKind::Addr, HKind::Sender, HKind::Sender, HKind::WeakSender, HKind::WeakSender, HKind::Caller];
